@@ -1,2 +1,3 @@
 import GraphSlam.Props.C16.NumJac
+import GraphSlam.Props.Tie.GraphPy
 /-! C16 — umbrella. -/
